@@ -17,6 +17,7 @@ type modSpec struct {
 	N      int    `json:"n"`
 	Flavor int    `json:"flavor"`
 	Dwarf  string `json:"dwarf,omitempty"` // path below /repo of a DWARF test binary
+	Only   string `json:"only,omitempty"`  // non-empty: the module is used by that family only
 }
 
 const (
@@ -51,7 +52,7 @@ func corpusSpecs(thorough bool) []modSpec {
 		add(100, flMixed)
 		add(300, flArith)
 		out = append(out, modSpec{Name: "dwarf-zig-cc", Dwarf: "internal/testing/dwarftestdata/testdata/zig-cc/main.wasm"})
-		return out
+		return append(out, bigDieModule)
 	}
 	ns := []int{1, 2, 3, 4, 5, 7, 8, 12, 16, 17, 25, 33, 50, 64, 100, 150, 200, 300}
 	for i, n := range ns {
@@ -62,8 +63,12 @@ func corpusSpecs(thorough bool) []modSpec {
 	add(300, flCalls)
 	out = append(out, modSpec{Name: "dwarf-zig-cc", Dwarf: "internal/testing/dwarftestdata/testdata/zig-cc/main.wasm"})
 	out = append(out, modSpec{Name: "dwarf-zig", Dwarf: "internal/testing/dwarftestdata/testdata/zig/main.wasm"})
-	return out
+	return append(out, bigDieModule)
 }
+
+// bigDieModule has an entry > 64 KiB (several rounds of io.Copy's 32 KiB buffer); it is used only by
+// the "writer dies inside Add" family (die.go) so that the other families' cost is unchanged.
+var bigDieModule = modSpec{Name: "mem-300", N: 300, Flavor: flMem, Only: "die"}
 
 const (
 	opI32Add      = 0x6a
